@@ -7,6 +7,7 @@ import Lean.Data.Json
 import VModel
 import VModel.LRU
 import VModel.Spark
+import DriverPandas
 
 open Lean V V.Gen
 
@@ -242,6 +243,7 @@ def handle (line : String) : Json :=
       else if op == "algebra" then handleAlgebra req
       else if op == "lru" then handleLRU req
       else if op == "spark" then handleSpark req
+      else if op == "pandas" then PdDrv.handle req
       else if op == "ping" then Json.mkObj [("pong", true)]
       else Json.mkObj [("err", "unknown-op")]
     match req.getObjVal? "id" with
